@@ -15,11 +15,21 @@ import sys
 VERIF = os.path.dirname(os.path.dirname(os.path.abspath(__file__)))
 
 
-def digests(prop, seeds, k, replay_too=True):
-    from simfw import runner
+def _entry(prop, sim_name):
     from simfw.registry import CHECKS
 
     ent = CHECKS[prop]
+    for e in [ent] + list(ent.get("further", [])):
+        if e["sim"] == sim_name:
+            return e
+    raise KeyError(sim_name)
+
+
+def digests(prop, seeds, k, replay_too=True, sim_name=None):
+    from simfw import runner
+    from simfw.registry import CHECKS
+
+    ent = _entry(prop, sim_name or CHECKS[prop]["sim"])
     sim = runner.load_sim(ent["sim"])
     cfg = dict(ent["quick"])
     out = {}
@@ -34,12 +44,12 @@ def digests(prop, seeds, k, replay_too=True):
     return out
 
 
-def child(prop, seeds, k):
+def child(prop, seeds, k, sim_name=None):
     from simfw import boot
 
     boot.boot()
     boot.warm_front_end()
-    print("RESULT " + json.dumps(digests(prop, seeds, k, replay_too=False)))
+    print("RESULT " + json.dumps(digests(prop, seeds, k, replay_too=False, sim_name=sim_name)))
 
 
 def main(tier="quick"):
@@ -52,22 +62,23 @@ def main(tier="quick"):
     bad = 0
     total = 0
     sims_done = set()
+    todo = []
     for prop in sorted(CHECKS):
-        sim = CHECKS[prop]["sim"]
-        if sim in sims_done:
-            continue
-        sims_done.add(sim)
-        k = int(CHECKS[prop]["quick"].get("runs_per_spec", 1))
+        for e in [CHECKS[prop]] + list(CHECKS[prop].get("further", [])):
+            if e["sim"] not in sims_done:
+                sims_done.add(e["sim"])
+                todo.append((prop, e["sim"], int(e["quick"].get("runs_per_spec", 1))))
+    for prop, sim, k in todo:
         seeds = [7_000_000 + i * 5 for i in range(n)]
-        first = digests(prop, seeds, k)
-        second = digests(prop, list(reversed(seeds)), k, replay_too=False)
+        first = digests(prop, seeds, k, sim_name=sim)
+        second = digests(prop, list(reversed(seeds)), k, replay_too=False, sim_name=sim)
         fresh = {}
         for hs in ("0",):
             env = dict(os.environ)
             env["PYTHONHASHSEED"] = hs
             env["VERIF_HASHSEED"] = hs
             env["VERIF_BOOTED"] = "1"
-            p = subprocess.run([sys.executable, "-B", "-c", "import sys; sys.path.insert(0,%r); from selftest import determinism as d; d.child(%r,%r,%d)" % (VERIF, prop, seeds[: max(6, n // 4)], k)], env=env, capture_output=True, text=True, cwd=VERIF, timeout=3600)
+            p = subprocess.run([sys.executable, "-B", "-c", "import sys; sys.path.insert(0,%r); from selftest import determinism as d; d.child(%r,%r,%d,%r)" % (VERIF, prop, seeds[: max(6, n // 4)], k, sim)], env=env, capture_output=True, text=True, cwd=VERIF, timeout=3600)
             for line in p.stdout.splitlines():
                 if line.startswith("RESULT "):
                     fresh = {int(a): b for a, b in json.loads(line[7:]).items()}
